@@ -633,16 +633,48 @@ func (e *Engine) execTypeSwitch(s *ast.TypeSwitchStmt, st *State, label string) 
 	}
 	_ = bind
 	v := e.ev(x, st)
+	// a value boxed from a known concrete type (unit option dyntype): arms are selected statically
+	var staticT types.Type
+	if strings.HasPrefix(v.T, "(mk-ifc ") {
+		var id int
+		if _, err := fmt.Sscanf(v.T, "(mk-ifc %d ", &id); err == nil && id > 0 {
+			staticT = e.tidTypes[id]
+		}
+	}
 	v.T = e.nameTerm("tsw", "Ifc", v.T)
 	lf := e.pushLoop(label, false)
 	var outs []*State
 	rest := st
 	var deflt *ast.CaseClause
+	taken := false
 	for _, cs := range s.Body.List {
 		cc := cs.(*ast.CaseClause)
 		if len(cc.List) == 0 {
 			deflt = cc
 			continue
+		}
+		if staticT != nil {
+			if taken {
+				continue
+			}
+			match := false
+			for _, tx := range cc.List {
+				if id, ok := tx.(*ast.Ident); ok && id.Name == "nil" {
+					continue
+				}
+				ct := e.typeOf(tx)
+				if iface, isIface := types.Unalias(ct).Underlying().(*types.Interface); isIface {
+					if types.Implements(staticT, iface) {
+						match = true
+					}
+				} else if types.Identical(ct, staticT) {
+					match = true
+				}
+			}
+			if !match {
+				continue
+			}
+			taken = true
 		}
 		var conds []string
 		for _, tx := range cc.List {
@@ -669,7 +701,9 @@ func (e *Engine) execTypeSwitch(s *ast.TypeSwitchStmt, st *State, label string) 
 		}
 		outs = append(outs, e.execBlock(cc.Body, s1))
 	}
-	if deflt != nil {
+	if staticT != nil && taken {
+		// the matching arm was found statically: no other arm and no default is reachable
+	} else if deflt != nil {
 		if obj := e.pk.Info.Implicits[deflt]; obj != nil {
 			rest.vars[obj] = Value{v.T, obj.Type()}
 		}
